@@ -368,6 +368,43 @@ example :
     let m : FuncFeat := ⟨[], c!"f", some c!"self", [c!"file_input", c!"class_def", c!"class_def_raw", c!"block", c!"function_def"]⟩
     funcClass m = .method ∧ pyFuncClass m = .method := by decide +kernel
 
+/-! ### the registration order of the `function_def` candidates -/
+
+/-- `Constructor`, `Method` and `Closure` never accept the same node (so their mutual order is immaterial) -/
+theorem function_def_disjoint (f : FuncFeat) :
+    (isConstructor f = true → isMethod f = false ∧ isClosure f = false) ∧ (isMethod f = true → isClosure f = false) := by
+  rw [isConstructor_eq, isMethod_eq, isClosure_eq]
+  cases inClassBlock f <;> cases nameIsInit f <;> cases selfFirst f <;> cases hasTag c!"class_def_raw" f
+    <;> cases hasTag c!"function_def_raw" f <;> simp
+
+/-- **The order matters exactly where `match_feature`s overlap.** Every registration order that keeps `ClassMethod` before
+    `Constructor`, `Method`, `Closure` and `Function` last classifies every node like the shipped order … -/
+theorem function_def_order (order : List FuncClass) (h : order ∈ okOrders) (f : FuncFeat) : firstOf order f = funcClass f := by
+  obtain ⟨h1, h2⟩ := function_def_disjoint f
+  simp only [okOrders, List.mem_cons, List.mem_nil_iff, or_false] at h
+  rcases h with rfl | rfl | rfl | rfl | rfl | rfl <;>
+  · simp only [firstOf, funcClass, List.find?_cons, accepts, List.find?_nil]
+    revert h1 h2
+    cases isClassMethod f <;> cases isConstructor f <;> cases isMethod f <;> cases isClosure f <;> simp
+
+/-- … `ClassMethod` overlaps with each of the three (a `@classmethod` named `__init__`, one whose first parameter is `self`,
+    one outside a class body), so an order that lists one of them first classifies these nodes differently — the seeded
+    order `Constructor, Method, ClassMethod, …` on the first two … -/
+theorem function_def_overlaps :
+    (∃ f, isClassMethod f = true ∧ isConstructor f = true
+        ∧ firstOf [.constructor, .method, .classMethod, .closure, .function] f ≠ funcClass f)
+    ∧ (∃ f, isClassMethod f = true ∧ isMethod f = true
+        ∧ firstOf [.constructor, .method, .classMethod, .closure, .function] f ≠ funcClass f)
+    ∧ (∃ f, isClassMethod f = true ∧ isClosure f = true
+        ∧ firstOf [.closure, .classMethod, .constructor, .method, .function] f ≠ funcClass f) := by
+  refine ⟨⟨⟨[c!"classmethod"], c!"__init__", some c!"cls", [c!"file_input", c!"class_def", c!"class_def_raw", c!"block", c!"function_def"]⟩, ?_⟩,
+    ⟨⟨[c!"classmethod"], c!"f", some c!"self", [c!"file_input", c!"class_def", c!"class_def_raw", c!"block", c!"function_def"]⟩, ?_⟩,
+    ⟨⟨[c!"classmethod"], c!"f", some c!"cls", [c!"file_input", c!"function_def", c!"function_def_raw", c!"block", c!"function_def"]⟩, ?_⟩⟩ <;>
+  decide +kernel
+
+/-- … and the order registered in `providers/syntax/resolver.py` (generated table) is one of the good ones. -/
+theorem function_def_order_generated : generatedFuncOrderOk = true := by decide +kernel
+
 /-! ### the three statements that were false before fix e2c3e47 (each with exactly the hypotheses it still needs) -/
 
 /-- constructors: only "class functions are statements of the class body" remains -/
